@@ -143,7 +143,7 @@ Section Words.
       cbn in Hb. apply andb_prop in Hb as [Ha _]. cbn [starts]. destruct (Ascii.eqb_spec a c) as [->|]; [rewrite Hc in Ha; discriminate | reflexivity]. }
     apply IH. intros t' tok' H. apply (Hf t' tok'). right. exact H.
   Qed.
-  Lemma lex1_blank c s : is_blank c = true -> lex1 literals (c :: s) = Skip (m_blank (c :: s)).
+  Lemma lex1_blank c s : is_blank c = true -> lex1 literals (c :: s) = Skip SBlank (m_blank (c :: s)).
   Proof.
     intro Hc. destruct (blank_facts c Hc) as (Ci & Cd & Ca & Cn & _ & _ & C92 & C47 & C13 & C34 & _).
     assert (Ascii.eqb "/"%char c = false) as Fs by (destruct (Ascii.eqb_spec "/"%char c) as [<-|]; [discriminate Hc | reflexivity]).
@@ -194,7 +194,7 @@ Section Words.
   (* a word: whatever blank and text follow it, the scanner takes exactly the word as one token of kind k *)
   Definition solid (k : kind) (w : text) : Prop := forall c rest, is_blank c = true -> lex1 literals (w ++ c :: rest) = Tok k (List.length w).
   Definition blanks (b : text) : Prop := b <> [] /\ forallb is_blank b = true.
-  Definition not_line_end (k : kind) : Prop := k <> KLineEnd.
+  Definition not_line_end (k : kind) : Prop := k <> KLf /\ k <> KCrLf.
 
   (* words separated (and followed) by runs of blanks are scanned into exactly those words, whatever the runs are *)
   Fixpoint render (ws : list (kind * text)) (bs : list text) : text :=
@@ -232,13 +232,14 @@ Section Words.
         apply IH; [cbn in Hl; lia | cbn in Hf; lia | exact Hs' | exact Hb']. }
       change (lex literals (S (S fuel)) (w ++ c :: b ++ render ws bs)) with
         (match lex1 literals (w ++ c :: b ++ render ws bs) with
-         | Eof => Some [] | Skip n => lex literals (S fuel) (skipn n (w ++ c :: b ++ render ws bs))
-         | Tok KLineEnd n => lex literals (S fuel) (skipn n (w ++ c :: b ++ render ws bs))
+         | Eof => Some [] | Skip _ n => lex literals (S fuel) (skipn n (w ++ c :: b ++ render ws bs))
+         | Tok KLf n => lex literals (S fuel) (skipn n (w ++ c :: b ++ render ws bs))
+         | Tok KCrLf n => lex literals (S fuel) (skipn n (w ++ c :: b ++ render ws bs))
          | Tok k0 n => option_map (cons (k0, firstn n (w ++ c :: b ++ render ws bs))) (lex literals (S fuel) (skipn n (w ++ c :: b ++ render ws bs)))
          | Comment => match scan (List.length (w ++ c :: b ++ render ws bs)) (skipn 2 (w ++ c :: b ++ render ws bs)) with Closed rest => lex literals (S fuel) rest | Unclosed => None end
          end).
       rewrite (Hsol c _ Hc). rewrite firstn_app_exact, skipn_app_exact, Hrest.
-      destruct k; try reflexivity. exfalso. apply Hk. reflexivity.
+      destruct Hk as [Hk1 Hk2]. destruct k; try reflexivity; exfalso; [apply Hk1 | apply Hk2]; reflexivity.
   Qed.
   (* hence the choice of blanks between the same words is immaterial *)
   Corollary lex_blank_invariance ws bs bs' fuel : List.length bs = List.length ws -> List.length bs' = List.length ws -> 2 * List.length ws < fuel ->
